@@ -17,3 +17,11 @@ claim("C04", "exploration",
       "up before and after (first match + default routing), results are re-minimised, lengths and failure reports checked.",
       "First-match lookup in /verif is the reference; key space limited to 3-4 bits and tables to <=8 entries.",
       "DESIGN.md section 4, C04")
+claim("C03", "exploration",
+      "Every set of dead directed links/chips up to a bound on tiny tori, 3x2/3x3 tori, 3x3/4x4 meshes and almost-tori, plus "
+      "tree-focused fault sets (every subset of the net's own tree links dead, with extra dead links), x every source x every small "
+      "sink set x radii, with the router's random tie-breaks owned and explored to a deviation bound; each returned tree is walked by "
+      "an independent oracle (root, adjacency modulo size, live links/chips, each chip once, exact leaves, only the documented error "
+      "and only on machines that are not strongly connected).",
+      "Machines up to 4x4; tie-breaks beyond the deviation bound follow one fixed fair stream; placements on live chips.",
+      "DESIGN.md section 4, C03")
